@@ -246,6 +246,13 @@ function compare(a, b, opts) {
   const diffs = [];
   const res = { equal: true, eventsA: a.trace.length, eventsB: b.trace.length, segs: 0, termA: a.term, termB: b.term, diffs };
   if (a.term === 'overflow' || a.term === 'timeout' || b.term === 'overflow' || b.term === 'timeout') { res.inconclusive = true; }
+  // dropEvents: events that the options under test allow to disappear (e.g. the body of a call marked pure whose
+  // result is unused) are removed from both traces before they are compared
+  if (opts && opts.dropEvents) {
+    const re = new RegExp(opts.dropEvents);
+    a = Object.assign({}, a, { trace: a.trace.filter(e => !re.test(e)) });
+    b = Object.assign({}, b, { trace: b.trace.filter(e => !re.test(e)) });
+  }
   const sa = segments(a.trace), sb = segments(b.trace);
   res.segs = sa.segs.size;
   // powTol: the language leaves finite results of ** implementation-approximated, so for programs that use it
